@@ -158,6 +158,13 @@ def check_loop(ctx, w):
     src = [U(s) for s in h.node.body]
     ctx.ob('W-LOOP', h.construct, 'registration keyed by the opcode of the name', src == ['table[DW_OP_name2opcode[opcode_name]] = func'], got=src)
     ctx.guard('H-CUR', 'cursor', hrules.run_h, ctx, w, [MOD])
+    # "operand values with correct signedness and width": the LEB128 operands (consts, fbreg, bregN, constu, ...) are decoded by the two
+    # LEB128 constructs, whose loop summaries are decided by C16's rule (shared)
+    from props import C16
+    ctx.rule('L-LEB', 'LEB128 operand decoders: loop summary (7 payload bits per byte, stop at bit 7 clear, SLEB sign extension unconditional on bit 6)')
+    ctx.guard('L-LEB', 'ULEB128', C16.check_leb, ctx, w, C16.CU, 'ULEB128._parse', False)
+    ctx.guard('L-LEB', 'SLEB128', C16.check_leb, ctx, w, C16.CU, 'SLEB128._parse', True)
+    ctx.floor('L-LEB', 16)
     rb = w.model.func('common/utils.py', 'read_blob')
     got = [expr.nfs(r.value, expr.FEnv(rb.node, params=('stream', 'length'))) for r in expr.returns_of(rb.node)]
     ctx.ob('W-LOOP', rb.construct, 'read_blob reads `length` single bytes', got == ["comp(struct_parse(ULInt8(''),stream),for(i,range(length)))"], got=got)
